@@ -609,7 +609,9 @@ func c17RedefFamily(c *c17Case) string {
 	}
 	fam := "name-defined-twice-referenced-from-another-file"
 	if pick.mentioned {
-		fam = "name-defined-twice-referenced-after-the-last-definition"
+		// (a reference after the last definition, a function of the file that is
+		// called later, or the export form)
+		fam = "name-defined-twice-mentioned-in-the-defining-file-too"
 	}
 	return fam + ":" + strings.Join(pick.kinds, "-then-")
 }
